@@ -98,7 +98,10 @@ class SessionReplayer:
         if self.use_tf_function:
             from tf_pwa.experimental.wrap_function import WrapFun
 
-            self.amp.cached_fun = WrapFun(self.amp.pdf, jit_compile=False)
+            # a fresh compiled-function cache, constructed with the library's own arguments
+            old = self.amp.cached_fun
+            kw = {"state": old.state} if hasattr(old, "state") else {}
+            self.amp.cached_fun = WrapFun(old.f, jit_compile=getattr(old, "jit_compile", False), **kw)
         self.frames = []  # real counterparts of the model's stack
         self.uninstall_fault()
 
